@@ -109,6 +109,51 @@ def check_under_guard(ctx):
                      "Record::new", "Record::new_from_bytes", "Record::new_deferred_with_ttl"], floor=6)
 
 
+STALE_ARG_FNS = [("FeoxStore::update_record_with_ttl", 2), ("FeoxStore::update_record_with_ttl_bytes", 2),
+                 ("FeoxStore::replace_record_if_current", 3), ("FeoxStore::retire_expired_if_current", 3)]
+STALE_OK_CALLS = ["ptr::eq", "Arc::ptr_eq", "Record::retirement_timestamp", "Clone::clone", "Deref::deref", "AsRef::as_ref", "Vec::len", "slice::len"]
+
+
+def check_stale_read(ctx):
+    """once the bucket guard is held, decisions and accounting use the record under the guard; the generation read
+    optimistically before (function argument) may only be compared by identity, asked for its retirement stamp, or
+    supply the (immutable) key"""
+    inst = "C07.under-guard/stale-read"
+    n_checked = 0
+    for fn, argi in STALE_ARG_FNS:
+        b = ctx.fn(fn, inst)
+        if b is None:
+            continue
+        ent = ctx.sites(b, R.call("HashMap::entry"), inst, exact=1)
+        if not ent:
+            continue
+        r, _ = A.reach(b, A.succs(b, ent[0]), sensitive=False)
+        tr = A.tracer(b)
+        for nid in sorted(r):
+            n = b.nodes[nid]
+            exprs = []
+            if n.kind == "call":
+                if any(R.call_matches(n.ev, c) for c in STALE_OK_CALLS):
+                    continue
+                exprs = [tr.operand(a) for a in n.ev["args"]]
+                # a call *on* the stale record (method receiver)
+                if n.ev["args"]:
+                    recv = exprs[0]
+                    if recv.k == "arg" and recv.extra[0] == argi:
+                        n_checked += 1
+                        ctx.fail(inst, "PROVENANCE", b.path, "under the bucket guard `%s` is called on the optimistic (possibly stale) record" % R.callee_name(n.ev).rsplit("::", 1)[-1], b.where(nid))
+                        continue
+            elif n.kind == "assign" and n.ev.get("rv") in ("use", "bin", "cast"):
+                exprs = [tr.node_value(nid)]
+            for e in exprs:
+                for x in e.walk():
+                    if x.k == "field" and x.a and x.a[0].k == "arg" and x.a[0].extra[0] == argi and (x.extra[0] or "").endswith("Record"):
+                        n_checked += 1
+                        ctx.check(x.extra[1] in ("key",), inst, "PROVENANCE", b.path,
+                                  "under the bucket guard only the key of the optimistic record is read (found `.%s`)" % x.extra[1], b.where(nid))
+    ctx.check(n_checked >= 2, inst, "anchor", "-", "reads of the optimistic record under the guard examined (%d)" % n_checked, None)
+
+
 def check_vacant(ctx):
     inst = "C07.vacant"
     for fn in ("FeoxStore::update_record_with_ttl", "FeoxStore::update_record_with_ttl_bytes"):
@@ -148,5 +193,6 @@ def check_gate(ctx):
 def check(ctx):
     check_gate(ctx)
     check_identity(ctx)
+    check_stale_read(ctx)
     check_under_guard(ctx)
     check_vacant(ctx)
